@@ -8,6 +8,20 @@ every run and Proofs/C09Gen.lean proves every generated definition equal to the 
 design-day / psych-chart users is compared with the real functions (tolerance 1e-12 relative for closed
 forms, 1e-9 for the iterative solvers; same libm, so in practice bit-exact).
 
+Round 3 (histories, refused operations, entry points, process order): Model/PsychroObj.lean is an object state
+machine of the design-day humidity objects (public state = type, value, pressure, dry-bulb max, range; setters with
+their refusals; reads), executed by `drv_c09 ddhist` and compared STEP BY STEP with real DesignDay /
+HumidityCondition / DryBulbCondition objects built through every entry point (constructor,
+from_design_day_properties, from_dict, from_idf, DDY file), incl. a twin object that differs in one field; call
+histories of psychrometrics.py (partial-key repeats, failing calls, defaults, ints, dry air) and chart read
+histories are compared with the pure model in this process and in 2-3 fresh processes with other orders (rare
+classes first / reversed / shuffled).  The oracle states the same independently of the model: every observable
+after a history equals what the statement requires of the PUBLIC state the user established (composed from the
+psychrometric functions; hand-written IDF / dict forms; IDD units), a refused operation changes nothing, every
+route to the dew point (rh, humidity ratio, enthalpy, wet bulb) describes the same state incl. completely dry air,
+every chart vertex inverts to its state, and a slice of the stream holds in fresh processes in several orders
+(`order`, replayable).  See the block comment "ROUND 3" below for the producer -> consumer list.
+
 Partial by nature (DESIGN.md section 9): everything that needs certified numerics of exp/log (solver
 outputs, Magnus closeness, continuity at 0 C, monotonicity across the branch point) is a *sampled
 sub-claim* evaluated by the oracle on the real code and reported under `sampled_subclaims`.
@@ -19,7 +33,8 @@ from harness import core
 
 PROP = 'C09'
 PROOF_MODULES = ['Ladybug.Props.C09', 'Ladybug.Proofs.C09Gen']
-GREP_MODULES = ['Ladybug.Transc', 'Ladybug.RealInst', 'Ladybug.Model.Psychro', 'Ladybug.Proofs.C09Lemmas',
+GREP_MODULES = ['Ladybug.Transc', 'Ladybug.RealInst', 'Ladybug.Model.Psychro', 'Ladybug.Model.PsychroObj',
+                'Ladybug.Proofs.C09Lemmas', 'Ladybug.Proofs.C09Obj',
                 'Ladybug.Gen.PsychroFormulas',
                 'Ladybug.Drv.C09', 'Ladybug.DrvCore']
 RULE = ('correspondence: every function of psychrometrics.py + HumidityCondition.dew_point/hourly profile + '
@@ -27,7 +42,13 @@ RULE = ('correspondence: every function of psychrometrics.py + HumidityCondition
         '(both sides of 0 C to 1 ulp, rh 0/100, wet bulb around 0 C, pressure limits) plus ~10 % out-of-range '
         'inputs (negative/over-100 rh, p_w > P, T < 0 K, inf/nan); a case is non-trivial when the implementation '
         'returns a finite value; distinct = distinct (op, argument bits). oracle: the relations of the statement '
-        'evaluated on the real functions only')
+        'evaluated on the real functions only. Round 3: operation histories on ONE design day (5-20 operations: reads '
+        'in random order and repeated, the 5 setters, replaced condition objects, operations the asserts refuse, '
+        'duplicates that are mutated, serial forms; entry point x humidity type x twin object; zero/int/saturated '
+        'values), read histories on one chart (SI/IP, 24 values / scalar inputs / single value, refused '
+        'constructions and calls in between), call histories of psychrometrics.py (one component changed between '
+        'consecutive calls, repeated, defaults omitted, ints, dry air, calls that fail inside), strata: dry bulb '
+        'above with dew point below 0 C, dry air through every route; the same cases in fresh processes in 2-4 orders')
 EXTRACTORS = 'tools/extract/psychro_formulas.py'
 TRUSTED_BASE = [
     'translator tools/extract/pyexpr2lean.py + psychro_formulas.py (Python ast -> Lean for straight-line numeric '
@@ -49,7 +70,15 @@ TRUSTED_BASE = [
     '0 C, continuity at 0 C, Magnus 0.6 %, design-day and chart relations) are tests on generated inputs, '
     'not theorems',
     'DryBulbCondition.hourly_values (C16) and the Temperature unit conversion (C06) are taken from the real '
-    'code as inputs of the design-day / chart ops',
+    'code as inputs of the round-1 design-day / chart ops (the round-3 histories recompute the hourly dry bulb from '
+    'the ASHRAE multipliers, copied into the harness and into Model/PsychroObj.lean)',
+    'object histories: the Lean state machine has no hidden state by construction (that is the specification); that '
+    'the real objects behave like it is compared on generated histories (not proved about the Python classes); '
+    'the validation rules of the setters (which arguments are refused) are transcribed by hand from designday.py',
+    'chart curves other than plot_point / data_points (rh lines, saturation line, temperature lines, border) are '
+    'checked by the oracle against the statement formula; enthalpy / wet-bulb lines, humidity-ratio lines, mesh '
+    'vertices only against a fresh chart and a repeated read (drawn geometry, no closed statement)',
+    'skymodel.calc_horizontal_infrared (consumer of the hourly dew point) is compared with a fresh object only',
 ]
 ASSUMPTIONS = ['meteorological range: dry bulb -40..55 C, rh 0..100 %, pressure 60..105 kPa',
                'independent Magnus-type reference: Alduchov-Eskridge 1996 over water, over ice (WMO form)']
@@ -61,7 +90,12 @@ LEVEL_TEXT = ('Lean 4 theorems over R about one polymorphic model of psychrometr
               'strictly increasing in humidity, dew point <= wet bulb <= dry bulb for every input with equality '
               'at rh = 100 (Newton clamp + bisection bracket), bracket width on exit, design-day cap and chart '
               'coordinate laws. The same definitions, instantiated at Float, are compared with the real code on '
-              'every run. Numerical closeness claims are sampled (partial).')
+              'every run. Numerical closeness claims are sampled (partial). Round 3: an object state machine of the '
+              'design-day humidity objects (setters, refusals, reads) with theorems for every numeric type: every '
+              'observation after any history equals that of a fresh object of the established public state, refused '
+              'operations preserve every observation, reads are pure and order-independent; dry air has dew point '
+              '-273.15 through every route; chart vertices invert to their state; the real objects are compared with '
+              'the state machine step by step on generated histories, in several process orders.')
 LEVEL_NOTE = ('partial: solver accuracy, monotonicity of dew point / wet bulb in rh, svp monotone across 273.15 K, '
               'continuity at 0 C and Magnus closeness are sampled sub-claims; float-vs-real gap trusted')
 TECHNIQUE = ('Lean 4 proof over R (HasDerivAt, field_simp/nlinarith, induction on the bisection fuel) about a '
@@ -299,6 +333,7 @@ def correspondence(ctx):
 
     _corr_designday(ctx)
     _corr_chart(ctx)
+    _corr_round3(ctx)
 
 
 class _DbStub(object):
@@ -799,6 +834,8 @@ def check_case(op, inp):
                 return _fail('y rises with rh, x unchanged', [(q.x, q.y), (q2.x, q2.y)], clause='chart_rises', ip=use_ip)
         return None
 
+    if op in _R3_OPS:
+        return _R3_OPS[op](inp)
     raise ValueError('unknown op ' + op)
 
 
@@ -906,6 +943,8 @@ def _oracle_cases(ctx):
         par = _chart_params(rng)
         tv, rv = _chart_data(rng, par)
         yield 'chart', {'par': list(par), 't': tv, 'rh': rv}
+    for c in _oracle_cases_r3(ctx, big):
+        yield c
 
 
 def oracle(ctx):
@@ -928,3 +967,1562 @@ def oracle(ctx):
                 return None
         return res
     core.run_oracle_cases(ctx, _oracle_cases(ctx), run)
+
+
+# =============================================================================================
+# ROUND 3: histories on one object / in one process, refused operations, entry points (consumers of one
+# producer), rare input classes, process-order independence.
+#
+# Producers and their consumers (every consumer is exercised below; kind (a) changes are caught by the
+# consumer that was NOT touched):
+#   saturated_vapor_pressure / _d_ln_p_ws   <- every function of psychrometrics.py (call histories `calls`,
+#       `state`, `routes`, `svp`, `derivative`), HumidityCondition.dew_point, chart coordinates
+#   dew_point_from_db_rh (Newton, "no vapour -> -273.15")  <- dew_point_from_db_hr / _enth / _wb (`routes`),
+#       wet_bulb_from_db_rh (lower bracket), HumidityCondition.dew_point for Wetbulb/HumidityRatio/Enthalpy
+#   wet_bulb_from_db_rh  <- wet_bulb_from_db_hr (`routes`)
+#   humid_ratio_from_db_rh  <- wet_bulb_from_db_rh, db_temp_and_hr_from_wb_rh, PsychrometricChart.plot_point,
+#       data_points, relative_humidity_polyline (rh_lines, saturation_line), temperature_lines, chart_border,
+#       colored_mesh vertices (`chart_history`)
+#   HumidityCondition (type, value, pressure) / DryBulbCondition (max, range)  <- entry points DesignDay(...),
+#       from_design_day_properties, from_dict, from_idf, DDY.from_ddy_file, from_ashrae_dict_heating/cooling;
+#       serial forms to_dict, to_idf, duplicate; derived quantities dew_point(db), hourly_dew_point_values,
+#       hourly_dew_point, hourly_relative_humidity, hourly_barometric_pressure, hourly_horizontal_infrared
+#       (`dd_history`, `dd_entry`)
+#   PsychrometricChart(...)  <- from_dict(to_dict()), lazily filled slots _data_points, _chart_border,
+#       _enth_lines, _wb_lines, _colored_mesh (`chart_history`)
+# psychrometrics.py itself is stateless (pure functions): its histories are call sequences in one process
+# (partial-key repeats, failing calls first) and the same cases in fresh processes in different orders.
+
+import json as _json
+import os as _os
+import subprocess as _subprocess
+import sys as _sys
+
+_MULT = (0.82, 0.88, 0.92, 0.95, 0.98, 1, 0.98, 0.91, 0.74, 0.55, 0.38, 0.23, 0.13, 0.05, 0, 0, 0.06, 0.14,
+         0.24, 0.39, 0.5, 0.59, 0.68, 0.75)          # ASHRAE default daily range multipliers (E+ DefaultMultipliers)
+DD_TYPES = ('Wetbulb', 'Dewpoint', 'HumidityRatio', 'Enthalpy')
+DD_FIELDS = ('type', 'value', 'p', 'db_max', 'db_range')
+DD_ENTRIES = ('ctor', 'props', 'dict', 'idf', 'ddy')
+_BADARG = {'bad:str': 'x', 'bad:none': None, 'bad:list': [1.0]}
+_ROOT = _os.path.normpath(_os.path.join(_os.path.dirname(_os.path.abspath(__file__)), '..', '..'))
+
+
+def _is_bad(arg):
+    return isinstance(arg, str) and arg.startswith('bad:')
+
+
+def _pyarg(arg):
+    return _BADARG[arg] if _is_bad(arg) else arg
+
+
+def _hum_value(rng, ty, db_max, p, humid=None):
+    """A humidity value of the given type that describes a possible state at db_max (independent Magnus formula)."""
+    humid = (rng.random() < 0.5) if humid is None else humid
+    dep = rng.uniform(0.5, 6.0) if humid else rng.uniform(12.0, 25.0)
+    if rng.random() < 0.08:
+        dep = rng.choice([0.0, 0.0, -2.0])       # exactly saturated at the maximum dry bulb / above saturation
+    dpt = db_max - dep
+    pw = magnus(dpt)
+    w = 0.622 * pw / (p - pw) if p > pw else 0.01
+    if ty == 'Dewpoint':
+        return dpt
+    if ty == 'Wetbulb':
+        a, b = db_max - 60.0, db_max
+        for _ in range(50):
+            m = (a + b) / 2.0
+            if magnus(m) - p * 6.6e-4 * (db_max - m) > pw:
+                b = m
+            else:
+                a = m
+        return b
+    if ty == 'HumidityRatio':
+        return w
+    return 1000.0 * (1.006 * db_max + w * (2501.0 + 1.86 * db_max))
+
+
+def _dd_apply(st, name, arg):
+    """The public state the user has established after one operation (plain Python, mirrors the validation
+    rules that can be read in designday.py): returns (state, 'set' | 'refused' | 'read')."""
+    if name in DD_FIELDS:
+        if _is_bad(arg):
+            return st, 'refused'
+        if name == 'type' and arg not in DD_TYPES:
+            return st, 'refused'
+        if name == 'db_range' and not arg >= 0:
+            return st, 'refused'
+        st = dict(st)
+        st[name] = arg
+        return st, 'set'
+    if name == 'swap_hc':
+        st = dict(st)
+        st.update({'type': arg['type'], 'value': arg['value'], 'p': arg['p']})
+        return st, 'set'
+    if name == 'swap_dbc':
+        if not arg['db_range'] >= 0:
+            return st, 'refused'
+        st = dict(st)
+        st.update({'db_max': arg['db_max'], 'db_range': arg['db_range']})
+        return st, 'set'
+    if name in ('bad_hc', 'bad_dbc'):
+        return st, 'refused'
+    return st, 'read'
+
+
+def _idf_text(st, name='d'):
+    """A SizingPeriod:DesignDay object written by hand in the field order of the EnergyPlus IDD
+    (Wetbulb/Dewpoint in field 10 [C], humidity ratio in field 12 [kg/kg], enthalpy in field 13 [J/kg])."""
+    ty, v = st['type'], st['value']
+    f10 = repr(v) if ty in ('Wetbulb', 'Dewpoint') else ''
+    f12 = repr(v) if ty == 'HumidityRatio' else ''
+    f13 = repr(v) if ty == 'Enthalpy' else ''
+    rows = [(name, 'Name'), (7, 'Month'), (21, 'Day of Month'), ('SummerDesignDay', 'Day Type'),
+            (repr(st['db_max']), 'Maximum Dry-Bulb Temperature {C}'),
+            (repr(st['db_range']), 'Daily Dry-Bulb Temperature Range {deltaC}'),
+            ('DefaultMultipliers', 'Dry-Bulb Temperature Range Modifier Type'),
+            ('', 'Dry-Bulb Temperature Range Modifier Day Schedule Name'),
+            (ty, 'Humidity Condition Type'), (f10, 'Wetbulb or DewPoint at Maximum Dry-Bulb {C}'),
+            ('', 'Humidity Condition Day Schedule Name'),
+            (f12, 'Humidity Ratio at Maximum Dry-Bulb {kgWater/kgDryAir}'),
+            (f13, 'Enthalpy at Maximum Dry-Bulb {J/kg}'), ('', 'Daily Wet-Bulb Temperature Range {deltaC}'),
+            (repr(st['p']), 'Barometric Pressure {Pa}'), (2.0, 'Wind Speed {m/s}'), (180.0, 'Wind Direction {deg}'),
+            ('No', 'Rain Indicator'), ('No', 'Snow Indicator'), ('No', 'Daylight Saving Time Indicator'),
+            ('ASHRAEClearSky', 'Solar Model Indicator'), ('', 'Beam Solar Day Schedule Name'),
+            ('', 'Diffuse Solar Day Schedule Name'), ('', 'taub'), ('', 'taud'), (1.0, 'Sky Clearness')]
+    out = ['SizingPeriod:DesignDay,\n']
+    for i, (val, com) in enumerate(rows):
+        out.append('  %s%s    !- %s\n' % (val, ';' if i == len(rows) - 1 else ',', com))
+    return ''.join(out)
+
+
+def _idf_parse(text):
+    """Independent reading of a SizingPeriod:DesignDay text -> [type index, value, pressure, db_max, db_range]."""
+    body = []
+    for ln in text.split('\n'):
+        ln = ln.split('!')[0].strip()
+        if ln:
+            body.append(ln)
+    fields = [x.strip() for x in ''.join(body).rstrip(';').split(',')]
+    ty = fields[9]
+    raw = {'Wetbulb': fields[10], 'Dewpoint': fields[10], 'HumidityRatio': fields[12], 'Enthalpy': fields[13]}[ty]
+    return [float(DD_TYPES.index(ty)), float(raw), float(fields[15]), float(fields[5]), float(fields[6])]
+
+
+def _dd_location():
+    from ladybug.location import Location
+    return Location('c09', '-', '-', 40.0, -75.0, -5.0, 10.0)
+
+
+def _dd_build(entry, st):
+    """One real DesignDay with the stated humidity / dry-bulb inputs, through one of the public entry points."""
+    from ladybug.designday import (DesignDay, DryBulbCondition, HumidityCondition, WindCondition, ASHRAEClearSky)
+    from ladybug.dt import Date
+    loc = _dd_location()
+    if entry == 'ctor':
+        return DesignDay('d', 'SummerDesignDay', loc, DryBulbCondition(st['db_max'], st['db_range']),
+                         HumidityCondition(st['type'], st['value'], st['p']), WindCondition(2.0, 180.0),
+                         ASHRAEClearSky(Date(7, 21), 1.0))
+    if entry == 'props':
+        return DesignDay.from_design_day_properties(
+            'd', 'SummerDesignDay', loc, Date(7, 21), st['db_max'], st['db_range'], st['type'], st['value'],
+            st['p'], 2.0, 180.0, 'ASHRAEClearSky', [1.0])
+    if entry == 'dict':
+        return DesignDay.from_dict({
+            'type': 'DesignDay', 'name': 'd', 'day_type': 'SummerDesignDay',
+            'location': {'type': 'Location', 'city': 'c09', 'latitude': 40.0, 'longitude': -75.0,
+                         'time_zone': -5.0, 'elevation': 10.0},
+            'dry_bulb_condition': {'type': 'DryBulbCondition', 'dry_bulb_max': st['db_max'],
+                                   'dry_bulb_range': st['db_range']},
+            'humidity_condition': {'type': 'HumidityCondition', 'humidity_type': st['type'],
+                                   'humidity_value': st['value'], 'barometric_pressure': st['p']},
+            'wind_condition': {'type': 'WindCondition', 'wind_speed': 2.0, 'wind_direction': 180.0},
+            'sky_condition': {'type': 'ASHRAEClearSky', 'date': [7, 21], 'clearness': 1.0}})
+    if entry == 'idf':
+        return DesignDay.from_idf(_idf_text(st), loc)
+    if entry == 'ddy':
+        import shutil
+        import tempfile
+        from ladybug.ddy import DDY
+        d = tempfile.mkdtemp(prefix='c09_')
+        try:
+            path = _os.path.join(d, 'x.ddy')
+            with open(path, 'w') as f:
+                f.write('Site:Location,\n  c09,    !- Name\n  40.0,    !- Latitude\n  -75.0,    !- Longitude\n'
+                        '  -5.0,    !- Time Zone\n  10.0;    !- Elevation\n\n')
+                f.write(_idf_text(st))
+                f.write('\n')
+            return DDY.from_ddy_file(path).design_days[0]
+        finally:
+            shutil.rmtree(d, ignore_errors=True)
+    raise ValueError(entry)
+
+
+def _dd_profiles(dd):
+    return list(dd.hourly_dew_point.values) + list(dd.hourly_relative_humidity.values)
+
+
+def _dd_read(dd, name, arg):
+    hc, dbc = dd.humidity_condition, dd.dry_bulb_condition
+    if name == 'dew':
+        return [hc.dew_point(dbc.dry_bulb_max)]
+    if name == 'dew_at':
+        return [hc.dew_point(arg)]
+    if name == 'hdb':
+        return list(dd.hourly_dry_bulb.values)
+    if name == 'hdew':
+        return list(dd.hourly_dew_point.values)
+    if name == 'hdpv':
+        return list(hc.hourly_dew_point_values(dbc))
+    if name == 'hrh':
+        return list(dd.hourly_relative_humidity.values)
+    if name == 'hp':
+        return list(dd.hourly_barometric_pressure.values)
+    if name == 'hir':
+        return list(dd.hourly_horizontal_infrared.values)
+    if name == 'dict':
+        d = dd.to_dict()
+        h, b = d['humidity_condition'], d['dry_bulb_condition']
+        return [float(DD_TYPES.index(h['humidity_type'])), h['humidity_value'], h['barometric_pressure'],
+                b['dry_bulb_max'], b['dry_bulb_range']]
+    if name == 'idf':
+        return _idf_parse(dd.to_idf())
+    if name == 'dup':
+        return _dd_profiles(dd.duplicate())
+    if name == 'dup_set':
+        # change every humidity input of a DUPLICATE: the original's later reads must not notice
+        d2 = dd.duplicate()
+        d2.humidity_condition.barometric_pressure = arg['p']
+        d2.humidity_condition.humidity_value = arg['value']
+        d2.dry_bulb_condition.dry_bulb_max = arg['db_max']
+        d2.dry_bulb_condition.dry_bulb_range = arg['db_range']
+        try:
+            d2.hourly_relative_humidity
+        except Exception:
+            pass                       # the duplicate's new inputs need not describe a state
+        return []
+    if name == 'redict':
+        return _dd_profiles(type(dd).from_dict(dd.to_dict()))
+    if name == 'reidf':
+        return _dd_profiles(type(dd).from_idf(dd.to_idf(), dd.location))
+    raise ValueError('unknown read ' + name)
+
+
+def _dd_do(dd, name, arg):
+    """Execute one operation on the real object: ('set',) | ('refused', exc) | ('vals', [..]) | ('raises', exc)
+    | ('zero',) (ZeroDivisionError: the documented -273.15 dew point fed to saturated_vapor_pressure)."""
+    from ladybug.designday import DryBulbCondition, HumidityCondition
+    if name in DD_FIELDS or name in ('swap_hc', 'swap_dbc', 'bad_hc', 'bad_dbc'):
+        try:
+            if name == 'type':
+                dd.humidity_condition.humidity_type = _pyarg(arg)
+            elif name == 'value':
+                dd.humidity_condition.humidity_value = _pyarg(arg)
+            elif name == 'p':
+                dd.humidity_condition.barometric_pressure = _pyarg(arg)
+            elif name == 'db_max':
+                dd.dry_bulb_condition.dry_bulb_max = _pyarg(arg)
+            elif name == 'db_range':
+                dd.dry_bulb_condition.dry_bulb_range = _pyarg(arg)
+            elif name == 'swap_hc':
+                dd.humidity_condition = HumidityCondition(arg['type'], arg['value'], arg['p'])
+            elif name == 'swap_dbc':
+                dd.dry_bulb_condition = DryBulbCondition(arg['db_max'], arg['db_range'])
+            elif name == 'bad_hc':
+                dd.humidity_condition = _pyarg(arg)
+            elif name == 'bad_dbc':
+                dd.dry_bulb_condition = _pyarg(arg)
+        except Exception as e:
+            return ('refused', type(e).__name__)
+        return ('set',)
+    try:
+        r = [float(v) for v in _dd_read(dd, name, arg)]
+    except ZeroDivisionError:
+        return ('zero',)
+    except Exception as e:
+        return ('raises', type(e).__name__)
+    if not all(math.isfinite(v) for v in r):
+        return ('raises', 'nonfinite')
+    return ('vals', r)
+
+
+def _dd_run(inp):
+    """Run a whole history on real objects (object 0 and, when present, its twin as object 1).
+    Returns the list of outcomes and the public states tracked alongside."""
+    sts = [dict(inp['init'])]
+    if inp.get('twin'):
+        t = dict(inp['init'])
+        t.update(inp['twin'])
+        sts.append(t)
+    objs = [_dd_build(inp['entry'], s) for s in sts]
+    out = []
+    for k, name, arg in inp['ops']:
+        res = _dd_do(objs[k], name, arg)
+        before = sts[k]
+        sts[k], verdict = _dd_apply(sts[k], name, arg)
+        out.append({'obj': k, 'name': name, 'arg': arg, 'res': res, 'verdict': verdict, 'before': before,
+                    'state': sts[k]})
+    return out
+
+
+def _dd_tokens(name, arg):
+    """Model tokens of one operation (drv_c09 `ddhist`); None = not modelled (oracle only)."""
+    def opt(tag, a):
+        return '%s:%s' % (tag, '?' if _is_bad(a) else _fbits(a))
+    if name == 'type':
+        return ['T:' + (arg if arg in DD_TYPES else '?')]
+    if name == 'value':
+        return [opt('V', arg)]
+    if name == 'p':
+        return [opt('P', arg)]
+    if name == 'db_max':
+        return [opt('M', arg)]
+    if name == 'db_range':
+        return [opt('R', arg)]
+    if name == 'swap_hc':
+        return ['T:' + arg['type'], opt('V', arg['value']), opt('P', arg['p'])]
+    if name == 'swap_dbc':
+        if not arg['db_range'] >= 0:
+            return [opt('R', arg['db_range'])]
+        return [opt('M', arg['db_max']), opt('R', arg['db_range'])]
+    if name == 'bad_hc':
+        return ['T:?']
+    if name == 'bad_dbc':
+        return ['R:?']
+    return {'dew': ['d'], 'dew_at': ['a:' + _fbits(arg)] if name == 'dew_at' else None, 'hdb': ['b'], 'hdew': ['h'],
+            'hdpv': ['h'], 'hrh': ['r'], 'hp': ['p'], 'dup': ['h', 'r'], 'redict': ['h', 'r'],
+            'reidf': ['h', 'r']}.get(name)
+
+
+def _dd_model_lines(inp):
+    """One `ddhist` line per object and, per operation, the slice of answers that belongs to it."""
+    sts = [dict(inp['init'])]
+    if inp.get('twin'):
+        t = dict(inp['init'])
+        t.update(inp['twin'])
+        sts.append(t)
+    toks = [[] for _ in sts]
+    where = []
+    for k, name, arg in inp['ops']:
+        t = _dd_tokens(name, arg)
+        if t is None:
+            where.append(None)
+        else:
+            where.append((k, len(toks[k]), len(t)))
+            toks[k].extend(t)
+    lines = ['ddhist %s %s %s' % (s['type'], ' '.join(_fbits(s[f]) for f in DD_FIELDS[1:]), ' '.join(tk))
+             for s, tk in zip(sts, toks)]
+    return lines, where
+
+
+def _dd_model_answer(parts):
+    """Combine the model's answers of one operation: 'set' | 'refused' | 'nonfinite' | [floats]."""
+    if any(p == 'refused' for p in parts):
+        return 'refused'
+    if all(p == 'set' for p in parts):
+        return 'set'
+    if any(p == 'nonfinite' for p in parts):
+        return 'nonfinite'
+    vals = []
+    for p in parts:
+        vals.extend(_fromb(t) for t in p.split()[1:])
+    return vals
+
+
+def _dd_compare_model(ctx, tag, inp, records):
+    """Step-by-step comparison of a history executed on real objects with the Lean state machine."""
+    lines, where = _dd_model_lines(inp)
+    outs = ctx.driver().run(lines)
+    answers = []
+    for o in outs:
+        if not o.startswith('ok'):
+            ctx.disagree(tag, {'history': inp, 'line': lines[0][:200]}, o, 'model rejected the history')
+            return
+        answers.append([x.strip() for x in o[2:].split('|')])
+    for i, (rec, w) in enumerate(zip(records, where)):
+        if w is None:
+            continue
+        res = rec['res']
+        if res[0] == 'zero':
+            ctx.count('skipped_zero_division')
+            continue
+        k, a, n = w
+        m = _dd_model_answer(answers[k][a:a + n])
+        ctx.compared += 1
+        ctx.count('op:' + tag + ':' + rec['name'])
+        if res[0] == 'set':
+            ok = m == 'set'
+        elif res[0] == 'refused':
+            ok = m == 'refused'
+        elif res[0] == 'raises':
+            ok = m == 'nonfinite'
+        else:
+            ok = isinstance(m, list) and len(m) == len(res[1]) and all(_close(x, y, 1e-9) for x, y in zip(m, res[1]))
+            if ok and m == res[1]:
+                ctx.count('bit_exact')
+        ctx.case((tag, lines[k], i), nontrivial=res[0] in ('vals', 'set', 'refused'))
+        if not ok:
+            ctx.disagree(tag, {'history': inp, 'step': i, 'op': [rec['obj'], rec['name'], rec['arg']]},
+                         repr(m)[:300], repr(res)[:300])
+            return
+
+
+def _dd_history_case(rng, ctx=None, entry=None, rare=None):
+    """One generated history on one design day (and sometimes a twin object that differs in one field)."""
+    ty = rng.choice(DD_TYPES)
+    db_max = rng.choice([rng.uniform(20, 45), rng.uniform(-5, 20), rng.uniform(-30, -5), 32.0, 0.0, 8.0, 32])
+    db_range = rng.choice([0.0, 0, rng.uniform(0, 3), rng.uniform(8, 16), 12.0])
+    p = rng.choice([_p(rng), 101325, 101325.0])
+    st = {'type': ty, 'value': _hum_value(rng, ty, db_max, p), 'p': p, 'db_max': db_max, 'db_range': db_range}
+    if rare == 'zero' or (rare is None and rng.random() < 0.08):
+        # falsy humidity values that are perfectly good states: dew point / wet bulb of exactly 0 C
+        st.update({'type': rng.choice(['Dewpoint', 'Wetbulb']), 'value': rng.choice([0.0, 0]),
+                   'db_max': rng.choice([0.5, 3.0, 8.0])})
+        ty = st['type']
+    entry = entry or rng.choice(DD_ENTRIES)
+    inp = {'entry': entry, 'init': st, 'twin': None, 'ops': []}
+    if rng.random() < 0.35:
+        f = rng.choice(['value', 'p', 'db_max', 'db_range', 'type'])
+        if f == 'type':
+            t2 = rng.choice([t for t in DD_TYPES if t != ty])
+            inp['twin'] = {'type': t2, 'value': _hum_value(rng, t2, db_max, p)}
+        elif f == 'value':
+            inp['twin'] = {'value': _hum_value(rng, ty, db_max, p)}
+        elif f == 'p':
+            inp['twin'] = {'p': _p(rng)}
+        elif f == 'db_max':
+            inp['twin'] = {'db_max': db_max + rng.choice([-6.0, -1.0, 2.5, 7.0])}
+        else:
+            inp['twin'] = {'db_range': rng.choice([0.0, 4.0, 14.0])}
+    sts = [dict(st)]
+    if inp['twin']:
+        t = dict(st)
+        t.update(inp['twin'])
+        sts.append(t)
+    reads = ['dew', 'hdew', 'hrh', 'hdpv', 'hp', 'hdb', 'dew_at', 'hir', 'dict', 'idf', 'dup', 'redict', 'reidf',
+             'dup_set']
+    wts = [3, 4, 4, 3, 1, 1, 2, 1, 1, 1, 1, 1, 1, 1]
+    n = rng.randrange(5, 13)
+    ops = []
+    for i in range(n):
+        k = rng.randrange(len(sts))
+        cur = sts[k]
+        r = rng.random()
+        if i == 0 or r < 0.50:
+            name = rng.choices(reads, wts)[0]
+            arg = None
+            if name == 'dew_at':
+                arg = rng.choice([cur['db_max'], cur['db_max'] - rng.uniform(0, 10), cur['db_max'] + 3.0, 0.0])
+            if name == 'dup_set':
+                arg = {'p': _p(rng), 'value': _hum_value(rng, cur['type'], cur['db_max'], cur['p'] or 101325.0),
+                       'db_max': cur['db_max'] + 4.0, 'db_range': 7.0}
+            if rng.random() < 0.25 and ops and ops[-1][0] == k and ops[-1][1] in reads:
+                name, arg = ops[-1][1], ops[-1][2]                 # the same question twice
+        elif r < 0.62:
+            # an operation the code refuses (read from the asserts of designday.py)
+            name = rng.choice(['type', 'value', 'p', 'db_max', 'db_range', 'db_range', 'bad_hc', 'bad_dbc', 'swap_dbc'])
+            if name == 'type':
+                arg = rng.choice(['RelativeHumidity', 'wetbulb', '', 'bad:none'])
+            elif name == 'db_range' and rng.random() < 0.6:
+                arg = rng.choice([-1.0, -1e-9, float('nan'), -5])
+            elif name == 'swap_dbc':
+                arg = {'db_max': cur['db_max'] + 5.0, 'db_range': -2.0}
+            else:
+                arg = rng.choice(['bad:str', 'bad:none', 'bad:list'])
+        else:
+            name = rng.choice(['type', 'value', 'value', 'p', 'p', 'db_max', 'db_range', 'swap_hc', 'swap_dbc'])
+            if name == 'type':
+                arg = rng.choice([t for t in DD_TYPES if t != cur['type']])
+            elif name == 'value':
+                arg = _hum_value(rng, cur['type'], cur['db_max'], cur['p'])
+                if rng.random() < 0.1:
+                    arg = rng.choice([0.0, 0])
+            elif name == 'p':
+                arg = rng.choice([_p(rng), 60000, 105000.0, 0.0]) if rng.random() < 0.97 else 0
+            elif name == 'db_max':
+                arg = cur['db_max'] + rng.choice([-8.0, -3.0, -0.5, 0.5, 3.0, 8.0])
+                if rng.random() < 0.1:
+                    arg = rng.choice([0.0, 0, 1])
+            elif name == 'db_range':
+                arg = rng.choice([0.0, 0, rng.uniform(0, 3), rng.uniform(8, 16)])
+            elif name == 'swap_hc':
+                t2 = rng.choice(DD_TYPES)
+                p2 = _p(rng)
+                arg = {'type': t2, 'value': _hum_value(rng, t2, cur['db_max'], p2), 'p': p2}
+            else:
+                m2 = cur['db_max'] + rng.choice([-4.0, 4.0])
+                arg = {'db_max': m2, 'db_range': rng.choice([0.0, 3.0, 12.0])}
+        ops.append([k, name, arg])
+        sts[k], verdict = _dd_apply(cur, name, arg)
+        # a value of another physical dimension (J/kg read as degrees C) is no state at all: the value follows
+        # at once, except between the two temperature-valued types
+        if verdict == 'set' and name == 'type' and (
+                rng.random() < 0.5 or not {cur['type'], arg} <= {'Wetbulb', 'Dewpoint'}):
+            v = _hum_value(rng, arg, sts[k]['db_max'], sts[k]['p'] or 101325.0)
+            ops.append([k, 'value', v])
+            sts[k], _ = _dd_apply(sts[k], 'value', v)
+        if verdict != 'read' and rng.random() < 0.7:
+            ops.append([k, rng.choice(['hdew', 'hrh', 'dew', 'hdpv']), None])
+    inp['ops'] = ops
+    if ctx is not None:
+        ctx.count('ddhist:entry:' + entry)
+        ctx.count('ddhist:type:' + st['type'])
+        if inp['twin']:
+            ctx.count('ddhist:twin')
+        for k, name, arg in ops:
+            v = _dd_apply({}, name, arg)[1] if name in DD_FIELDS else ('read' if name in reads else 'setobj')
+            ctx.count('ddhist:' + ('refused' if (v == 'refused' or name.startswith('bad_')) else v))
+    return inp
+
+
+# -- oracle of the design-day layer: what the statement requires of the profile for a public state ----------
+
+def _dd_expected(st, name, arg):
+    """The observable a design day must show for the public state `st`, composed from the property statement and
+    the psychrometric functions only (no design-day object involved): the day's dew point is the dew point of the
+    state (db_max, stated humidity, pressure), every hour's dew point is min(day dew point, that hour's dry bulb),
+    relative humidity is that of (dry bulb, dew point).  Returns ('vals', [...]) | ('raises', name) | None."""
+    from ladybug import psychrometrics as ps
+
+    def day(db):
+        ty, v, p = st['type'], st['value'], st['p']
+        if ty == 'Dewpoint':
+            return v
+        if ty == 'Wetbulb':
+            return ps.dew_point_from_db_wb(db, v, p)
+        if ty == 'HumidityRatio':
+            return ps.dew_point_from_db_hr(db, v, p)
+        return ps.dew_point_from_db_enth(db, v / 1000.0, p)        # IDD / docs: enthalpy in J/kg, functions in kJ/kg
+
+    def hourly_db():
+        return [st['db_max'] - st['db_range'] * x for x in _MULT]
+
+    def profiles():
+        d = day(st['db_max'])
+        dbs = hourly_db()
+        dps = [d if db >= d else db for db in dbs]
+        return dps, [ps.rel_humid_from_db_dpt(a, b) for a, b in zip(dbs, dps)]
+
+    try:
+        if name == 'dew':
+            r = [day(st['db_max'])]
+        elif name == 'dew_at':
+            r = [day(arg)]
+        elif name == 'hdb':
+            r = hourly_db()
+        elif name in ('hdew', 'hdpv'):
+            d = day(st['db_max'])
+            r = [d if db >= d else db for db in hourly_db()]
+        elif name == 'hrh':
+            r = profiles()[1]
+        elif name == 'hp':
+            r = [st['p']] * 24
+        elif name in ('dict', 'idf'):
+            r = [float(DD_TYPES.index(st['type'])), st['value'], st['p'], st['db_max'], st['db_range']]
+        elif name in ('dup', 'redict', 'reidf'):
+            a, b = profiles()
+            r = a + b
+        elif name == 'dup_set':
+            r = []
+        else:
+            return None
+        r = [float(v) for v in r]
+    except ZeroDivisionError:
+        return ('zero',)
+    except Exception as e:
+        return ('raises', type(e).__name__)
+    if not all(math.isfinite(v) for v in r):
+        return ('raises', 'nonfinite')
+    return ('vals', r)
+
+
+def _same_outcome(a, b, tol=1e-9):
+    if a[0] != b[0]:
+        return False
+    if a[0] == 'vals':
+        return len(a[1]) == len(b[1]) and all(_close(x, y, tol) for x, y in zip(a[1], b[1]))
+    if a[0] in ('raises', 'refused'):
+        return True            # the class of the exception is not part of the property
+    return True
+
+
+def _short(res):
+    if res[0] == 'vals':
+        return ['vals'] + [round(v, 6) for v in res[1][:6]] + (['...%d values' % len(res[1])] if len(res[1]) > 6 else [])
+    return list(res)
+
+
+def _check_dd_history(inp):
+    recs = _dd_run(inp)
+    last_change = ['fresh', 'fresh']
+    for i, rec in enumerate(recs):
+        k, name, arg, res, verdict = rec['obj'], rec['name'], rec['arg'], rec['res'], rec['verdict']
+        st = rec['state']
+        if verdict == 'set':
+            _sub('ddhist_setter_accepted', res[0] == 'set')
+            if res[0] != 'set':
+                return _fail('step %d: %s = %r is a valid assignment' % (i, name, arg), _short(res),
+                             clause='ddhist_setter', name=name, entry=inp['entry'])
+            last_change[k] = 'set:' + name
+            continue
+        if verdict == 'refused':
+            if res[0] != 'refused':
+                # the code accepted what its documented validation rejects: the object's state is now outside
+                # what the property speaks about, the rest of the history says nothing
+                return None
+            last_change[k] = 'refused:' + name
+            continue
+        want = _dd_expected(st, name, arg)
+        if want is None:
+            # derived quantity without a closed statement here (infrared): a fresh object of the same public state
+            try:
+                want = _dd_do(_dd_build('ctor', st), name, arg)
+            except Exception as e:
+                want = ('raises', type(e).__name__)
+        if want[0] == 'zero' or res[0] == 'zero':
+            if _sub('ddhist_read', want[0] == res[0] or res[0] == 'raises' or want[0] == 'raises'):
+                continue
+        ok = _same_outcome(want, res)
+        _sub('ddhist_read', ok)
+        if not ok:
+            return _fail('step %d: %s of object %d for the established state %r = %r'
+                         % (i, name, k, st, _short(want)), _short(res), clause='ddhist_read', read=name,
+                         after=last_change[k], entry=inp['entry'], type=st['type'])
+        # the statement's relations on the profile, for states of moist air
+        if name in ('hdew', 'hdpv', 'hrh') and res[0] == 'vals':
+            dbs = [st['db_max'] - st['db_range'] * x for x in _MULT]
+            bad = None
+            if name == 'hrh':
+                bad = [h for h, v in enumerate(res[1]) if not 0 < v <= 100 + 1e-9]
+            else:
+                bad = [h for h, (d, b) in enumerate(zip(res[1], dbs)) if not d <= b]
+            _sub('ddhist_profile_relation', not bad)
+            if bad:
+                return _fail('step %d: %s within the physical range at every hour (dew point <= dry bulb, '
+                             '0 < rh <= 100)' % (i, name), _short(res), clause='ddhist_relation', read=name,
+                             after=last_change[k], entry=inp['entry'], type=st['type'])
+    return None
+
+
+def _check_dd_entry(inp):
+    """The same stated design day through every public entry point: the day dew point reproduces the stated
+    humidity (Wetbulb [C], Dewpoint [C], HumidityRatio [kg/kg], Enthalpy [J/kg] at the maximum dry bulb) and every
+    entry point gives the same profile and the same serial forms."""
+    from ladybug import psychrometrics as ps
+    st = inp['state']
+    ty, v, p, dbm = st['type'], st['value'], st['p'], st['db_max']
+    # the state the inputs describe, from the psychrometric functions
+    if ty == 'Dewpoint':
+        rh_in = ps.rel_humid_from_db_dpt(dbm, v)
+    elif ty == 'Wetbulb':
+        rh_in = ps.rel_humid_from_db_wb(dbm, v, p)
+    elif ty == 'HumidityRatio':
+        rh_in = ps.rel_humid_from_db_hr(dbm, v, p)
+    else:
+        rh_in = ps.rel_humid_from_db_enth(dbm, v / 1000.0, p)
+    for entry in inp.get('entries', DD_ENTRIES):
+        try:
+            dd = _dd_build(entry, st)
+        except Exception as e:
+            _sub('ddentry_builds', False)
+            return _fail('entry point %s builds the design day' % entry, 'raises %s: %s' % (type(e).__name__, e),
+                         clause='ddentry_builds', entry=entry, type=ty)
+        for name in ('dew', 'hdew', 'hrh', 'hp', 'dict', 'idf'):
+            want = _dd_expected(st, name, None)
+            got = _dd_do(dd, name, None)
+            if want[0] == 'zero' and got[0] in ('zero', 'raises'):
+                continue
+            ok = _same_outcome(want, got)
+            _sub('ddentry_read', ok)
+            if not ok:
+                return _fail('%s of the design day built through %s = %r' % (name, entry, _short(want)), _short(got),
+                             clause='ddentry_read', read=name, entry=entry, type=ty)
+        got = _dd_do(dd, 'dew', None)
+        if got[0] == 'vals' and 0.01 <= rh_in <= 100 and got[1][0] <= dbm:
+            day = got[1][0]
+            lo = ps.rel_humid_from_db_dpt(dbm, day - SOLVER_TOL)
+            hi = ps.rel_humid_from_db_dpt(dbm, min(day + SOLVER_TOL, dbm))
+            ok = lo <= rh_in * (1 + 1e-9) and (rh_in <= hi * (1 + 1e-9) or day + SOLVER_TOL >= dbm)
+            _sub('ddentry_value_roundtrip', ok)
+            if not ok:
+                return _fail('day dew point of the %s day (entry %s) within 0.1 C of the dew point of the stated state '
+                             '(rh %r at %r C)' % (ty, entry, rh_in, dbm), day, clause='ddentry_roundtrip', entry=entry,
+                             type=ty)
+    return None
+
+
+def _check_dd_ashrae(inp):
+    """from_ashrae_dict_heating / _cooling: Wetbulb days from an ASHRAE HOF row (pressure optional)."""
+    from ladybug.designday import DesignDay
+    loc = _dd_location()
+    db, wb, dbr, p = inp['db'], inp['wb'], inp['dbr'], inp.get('p')
+    heat = {'Month': '1', 'DB996': repr(db), 'DB990': repr(db + 1.5), 'WS_DB996': '3.1', 'WD_DB996': '270'}
+    cool = {'Month': '7', 'DBR': repr(dbr), 'DB004': repr(db), 'WB_DB004': repr(wb), 'DB010': repr(db - 1.0),
+            'WB_DB010': repr(wb - 0.5), 'WS_DB004': '3.9', 'WD_DB004': '230'}
+    for kind in ('heating', 'cooling'):
+        if kind == 'heating':
+            dd = DesignDay.from_ashrae_dict_heating(heat, loc, False, p)
+            st = {'type': 'Wetbulb', 'value': db, 'p': 101325 if p is None else p, 'db_max': db, 'db_range': 0}
+        else:
+            dd = DesignDay.from_ashrae_dict_cooling(cool, loc, False, p)
+            st = {'type': 'Wetbulb', 'value': wb, 'p': 101325 if p is None else p, 'db_max': db, 'db_range': dbr}
+        for name in ('dew', 'hdew', 'hrh', 'hp', 'dict'):
+            want, got = _dd_expected(st, name, None), _dd_do(dd, name, None)
+            ok = _same_outcome(want, got) or (want[0] == 'zero' and got[0] in ('zero', 'raises'))
+            _sub('ddashrae_read', ok)
+            if not ok:
+                return _fail('%s of the %s design day from the ASHRAE row = %r' % (name, kind, _short(want)),
+                             _short(got), clause='ddashrae_read', read=name, kind=kind,
+                             pressure='default' if p is None else 'given')
+    return None
+
+
+# -- psychrometric chart: histories of reads on one (immutable, lazily filled) object -------------------------
+
+CHART_READS = ('data_points', 'plot', 'rh_lines', 'sat', 'tlines', 'hr_lines', 'border', 'enth', 'wb', 'mesh', 'redict')
+
+
+def _flat_pts(pts):
+    out = []
+    for q in pts:
+        out.extend([q.x, q.y])
+    return out
+
+
+def _chart_read(ch, name, arg):
+    if name == 'data_points':
+        return _flat_pts(ch.data_points)
+    if name == 'plot':
+        q = ch.plot_point(arg[0], arg[1])
+        return [q.x, q.y]
+    if name == 'rh_lines':
+        out = []
+        for pl in ch.rh_lines:
+            out.append(float(len(pl.vertices)))
+            out.extend(_flat_pts(pl.vertices))
+        return out
+    if name == 'sat':
+        return _flat_pts(ch.saturation_line.vertices)
+    if name == 'tlines':
+        return [c for s in ch.temperature_lines for c in (s.p1.x, s.p1.y, s.p2.x, s.p2.y)]
+    if name == 'hr_lines':
+        return [c for s in ch.hr_lines for c in (s.p1.x, s.p1.y, s.p2.x, s.p2.y)] + [float(x) for x in ch.hr_labels]
+    if name == 'border':
+        return _flat_pts(ch.chart_border.vertices)
+    if name == 'enth':
+        return [c for s in ch.enthalpy_lines for c in (s.p1.x, s.p1.y, s.p2.x, s.p2.y)] + \
+            [float(x.split()[0]) for x in ch.enthalpy_labels] + _flat_pts(ch.enthalpy_label_points)
+    if name == 'wb':
+        return [c for s in ch.wb_lines for c in (s.p1.x, s.p1.y, s.p2.x, s.p2.y)] + \
+            [float(x.split()[0]) for x in ch.wb_labels] + _flat_pts(ch.wb_label_points)
+    if name == 'mesh':
+        return _flat_pts(ch.colored_mesh.vertices)
+    if name == 'redict':
+        c2 = type(ch).from_dict(ch.to_dict())
+        return _flat_pts(c2.data_points) + _flat_pts(c2.saturation_line.vertices)
+    if name == 'bad_plot':                # refused: not a number
+        ch.plot_point(None, 50.0)
+        return []
+    if name == 'bad_polyline':
+        ch.relative_humidity_polyline('x')
+        return []
+    if name == 'bad_mesh':                # refused: a collection that is not aligned with the chart's data
+        from ladybug.datacollection import HourlyContinuousCollection
+        from ladybug.header import Header
+        from ladybug.analysisperiod import AnalysisPeriod
+        from ladybug.datatype.temperature import Temperature
+        ch.data_mesh(HourlyContinuousCollection(Header(Temperature(), 'C', AnalysisPeriod(1, 1, 0, 1, 1, 2)),
+                                                [1.0, 2.0, 3.0]))
+        return []
+    raise ValueError(name)
+
+
+def _chart_do(ch, name, arg):
+    try:
+        r = [float(v) for v in _chart_read(ch, name, arg)]
+    except Exception as e:
+        return ('raises', type(e).__name__)
+    if not all(math.isfinite(v) for v in r):
+        return ('raises', 'nonfinite')
+    return ('vals', r)
+
+
+def _chart_refused(kind, par, tv, rv):
+    """A chart construction the code refuses (validation read in psychchart.py __init__)."""
+    use_ip, bx, by, xd, yd, tmin, tmax, p = par
+    if kind == 'narrow':
+        return _make_chart((use_ip, bx, by, xd, yd, tmin, tmin + 9, p), tv, rv)
+    if kind == 'pressure':
+        return _make_chart((use_ip, bx, by, xd, yd, tmin, tmax, 0.0), tv, rv)
+    if kind == 'xdim':
+        return _make_chart((use_ip, bx, by, -1.0, yd, tmin, tmax, p), tv, rv)
+    if kind == 'lengths':
+        return _make_chart(par, tv, rv[:-1] + [])
+    if kind == 'offchart':
+        return _make_chart(par, [tmax + 500.0] * len(tv) if not use_ip else [1000.0] * len(tv), rv)
+    raise ValueError(kind)
+
+
+def _chart_expected(par, tv, rv, name, arg):
+    """Chart coordinates from the statement: x = base.x + x_dim * (t - t_min) in the chart's unit,
+    y = base.y + y_dim * humidity ratio of the state (humid_ratio_from_db_rh)."""
+    from ladybug import psychrometrics as ps
+    use_ip, bx, by, xd, yd, tmin, tmax, p = par
+    if name == 'data_points':
+        out = []
+        for tc, rh in zip(tv, rv):
+            t = tc * 9. / 5. + 32. if use_ip else tc
+            out.extend([bx + xd * (t - tmin), by + yd * ps.humid_ratio_from_db_rh(tc, rh, p)])
+        return out
+    if name == 'plot':
+        t, rh = arg
+        tc = (t - 32.) * 5. / 9. if use_ip else t
+        return [bx + xd * (t - tmin), by + yd * ps.humid_ratio_from_db_rh(tc, rh, p)]
+    if name in ('tlines', 'border'):
+        # vertical lines every 5 degrees (and at the maximum) from the base line up to saturation or the top
+        ts = list(range(int(tmin), int(tmax), 5)) + [int(tmax)]
+        top = []
+        for t in ts:
+            tc = (t - 32.) * 5. / 9. if use_ip else t
+            top.append(min(ps.humid_ratio_from_db_rh(tc, 100, p), 0.03))
+        if name == 'tlines':
+            out = []
+            for t, h in zip(ts, top):
+                x = bx + xd * (t - tmin)
+                out.extend([x, by, x, by + yd * h])
+            return out
+        x_max = bx + (tmax - tmin) * xd
+        out = [bx, by + yd * top[0], bx, by, x_max, by, x_max, by + yd * top[-1]]
+        return out
+    return None
+
+
+def _chart_history_case(rng, ctx=None):
+    par = _chart_params(rng)
+    tv, rv = _chart_data(rng, par)
+    shape = rng.choice(['24', '24', '24', 'scalar_t', 'scalar_rh', 'one'])
+    use_ip, tmin, tmax = par[0], par[5], par[6]
+    reads = []
+    n = rng.randrange(5, 12)
+    for i in range(n):
+        name = rng.choice(CHART_READS[:2] * 3 + CHART_READS)
+        arg = None
+        if name == 'plot':
+            tk = rng.choice(tv)                      # a temperature that is also among the chart's data
+            arg = [rng.choice([float(tmin), float(tmax), rng.uniform(tmin, tmax), 32.0 if use_ip else 0.0,
+                               tk * 9. / 5. + 32. if use_ip else tk, tk * 9. / 5. + 32. if use_ip else tk]),
+                   rng.choice([_rh(rng), 0.0, 100.0, 100, 50, rng.choice(rv)])]
+        if reads and rng.random() < 0.25:
+            name, arg = reads[-1][0], reads[-1][1]
+        if rng.random() < 0.12:
+            name, arg = rng.choice(['bad_plot', 'bad_polyline', 'bad_mesh']), None
+        reads.append([name, arg])
+    refused = rng.choice([None, None, 'narrow', 'pressure', 'xdim', 'lengths', 'offchart'])
+    if shape != '24' and refused == 'lengths':
+        refused = 'narrow'
+    if ctx is not None:
+        ctx.count('charthist:' + ('ip' if use_ip else 'si'))
+        ctx.count('charthist:shape:' + shape)
+        ctx.count('charthist:refused_first:' + str(refused))
+    return {'par': list(par), 't': tv, 'rh': rv, 'shape': shape, 'reads': reads, 'refused_first': refused}
+
+
+def _chart_inputs(inp):
+    """(t values, rh values, constructor inputs) of a chart history: 24 hourly values, one scalar + a collection,
+    or one-value-long input."""
+    tv, rv, shape = list(inp['t']), list(inp['rh']), inp.get('shape', '24')
+    if shape == 'scalar_t':
+        tv = [tv[0]] * 24
+    elif shape == 'scalar_rh':
+        rv = [rv[0]] * 24
+    elif shape == 'one':
+        tv, rv = tv[:1], rv[:1]
+    return tv, rv
+
+
+def _chart_make(inp):
+    from ladybug.psychchart import PsychrometricChart
+    from ladybug_geometry.geometry2d.pointvector import Point2D
+    par = tuple(inp['par'])
+    tv, rv = _chart_inputs(inp)
+    shape = inp.get('shape', '24')
+    if shape == '24':
+        return _make_chart(par, tv, rv)
+    use_ip, bx, by, xd, yd, tmin, tmax, p = par
+    if shape == 'one':                       # both inputs plain numbers
+        return PsychrometricChart(tv[0], rv[0], p, None, Point2D(bx, by), xd, yd, tmin, tmax, 0.03, use_ip)
+    full = _make_chart(par, tv, rv)
+    t_in = tv[0] if shape == 'scalar_t' else full.temperature
+    r_in = rv[0] if shape == 'scalar_rh' else full.relative_humidity
+    return PsychrometricChart(t_in, r_in, p, None, Point2D(bx, by), xd, yd, tmin, tmax, 0.03, use_ip)
+
+
+def _chart_run(inp):
+    par = tuple(inp['par'])
+    tv, rv = _chart_inputs(inp)
+    if inp.get('refused_first'):
+        try:
+            _chart_refused(inp['refused_first'], par, list(inp['t']), list(inp['rh']))
+            first = 'accepted'
+        except Exception as e:
+            first = type(e).__name__
+    else:
+        first = None
+    ch = _chart_make(inp)
+    return first, [(name, arg, _chart_do(ch, name, arg)) for name, arg in inp['reads']]
+
+
+def _check_chart_history(inp):
+    from ladybug import psychrometrics as ps
+    par = tuple(inp['par'])
+    use_ip, bx, by, xd, yd, tmin, tmax, p = par
+    tv, rv = _chart_inputs(inp)
+    first, recs = _chart_run(inp)
+    seen = {}
+    for i, (name, arg, res) in enumerate(recs):
+        key = _json.dumps([name, arg])
+        if name.startswith('bad_'):
+            continue                     # a refused call: only its effect on the later reads matters
+        want_vals = _chart_expected(par, tv, rv, name, arg)
+        if want_vals is not None:
+            want = ('vals', [float(v) for v in want_vals])
+            if name == 'border' and res[0] == 'vals' and len(res[1]) == len(want[1]) + 2:
+                # the fifth vertex (end of the saturation line at the top of the chart) is drawn geometry
+                res = ('vals', res[1][:len(want[1])])
+        else:
+            want = _chart_do(_chart_make(inp), name, arg)        # first read of a fresh chart
+        ok = _same_outcome(want, res)
+        _sub('charthist_read', ok)
+        if not ok:
+            return _fail('read %d (%s %r) of the chart = %r' % (i, name, arg, _short(want)), _short(res),
+                         clause='charthist_read', read=name, ip=use_ip, shape=inp.get('shape', '24'),
+                         repeated=key in seen)
+        if key in seen and not _sub('charthist_repeat', _same_outcome(seen[key], res, 0.0)):
+            return _fail('read %d (%s) equals the earlier read of the same question' % (i, name), _short(res),
+                         clause='charthist_repeat', read=name, ip=use_ip)
+        seen[key] = res
+        # curves of constant relative humidity: every vertex below the top of the chart is a state of that rh
+        if res[0] == 'vals' and name in ('rh_lines', 'sat'):
+            vals = res[1]
+            lines = []
+            if name == 'sat':
+                lines.append((100.0, vals))
+            else:
+                j, k = 0, 0
+                while j < len(vals):
+                    m = int(vals[j])
+                    lines.append((10.0 * (k + 1), vals[j + 1:j + 1 + 2 * m]))
+                    j += 1 + 2 * m
+                    k += 1
+            top = by + 0.03 * yd
+            for rh_line, xy in lines:
+                for a in range(0, len(xy), 2):
+                    x, y = xy[a], xy[a + 1]
+                    if y >= top - 1e-9 * max(1.0, abs(top), abs(yd)):
+                        continue                        # the cut-off point at the maximum humidity ratio
+                    t = tmin + (x - bx) / xd
+                    tc = (t - 32.) * 5. / 9. if use_ip else t
+                    back = ps.rel_humid_from_db_hr(tc, (y - by) / yd, p)
+                    if not _sub('chart_rh_curve', abs(back - rh_line) <= HR_RH_BOUND * rh_line + 1e-6):
+                        return _fail('vertex (%r, %r) of the %g %% curve is a state of that relative humidity' %
+                                     (x, y, rh_line), back, clause='chart_rh_curve', read=name, ip=use_ip)
+    return None
+
+
+# -- psychrometrics.py: call histories in one process ----------------------------------------------------------
+
+#        name          python function                 model op       number of positional args / defaults
+_FN = {
+    'svp': ('saturated_vapor_pressure', 1, ()),
+    'dlnpws': ('_d_ln_p_ws', 1, ()),
+    'hr_db_rh': ('humid_ratio_from_db_rh', 3, (101325.0,)),
+    'enth': ('enthalpy_from_db_hr', 3, (0.0,)),
+    'rh_db_hr': ('rel_humid_from_db_hr', 3, (101325.0,)),
+    'rh_db_enth': ('rel_humid_from_db_enth', 4, (101325.0, 0.0)),
+    'rh_db_dpt': ('rel_humid_from_db_dpt', 2, ()),
+    'rh_db_wb': ('rel_humid_from_db_wb', 3, (101325.0,)),
+    'hr_db_wb': ('humid_ratio_from_db_wb', 3, (101325.0,)),
+    'db_enth_hr': ('db_temp_from_enth_hr', 3, (0.0,)),
+    'db_rh_hr': ('db_temp_from_rh_hr', 3, (101325.0,)),
+    'db_hr_wb_rh': ('db_temp_and_hr_from_wb_rh', 3, (101325.0,)),
+    'dpt_db_rh': ('dew_point_from_db_rh', 2, ()),
+    'wb_db_rh': ('wet_bulb_from_db_rh', 3, (101325.0,)),
+    'wb_db_hr': ('wet_bulb_from_db_hr', 3, (101325.0,)),
+    'dpt_db_hr': ('dew_point_from_db_hr', 3, (101325.0,)),
+    'dpt_db_enth': ('dew_point_from_db_enth', 4, (101325.0, 0.0)),
+    'dpt_db_wb': ('dew_point_from_db_wb', 3, (101325.0,)),
+    'dpt_fast': ('dew_point_from_db_rh_fast', 2, ()),
+    'wb_fast': ('wet_bulb_from_db_rh_fast', 3, (101325.0,)),
+}
+_SOLVERS = ('dpt_db_rh', 'wb_db_rh', 'wb_db_hr', 'dpt_db_hr', 'dpt_db_enth', 'dpt_db_wb', 'wb_fast')
+
+
+def _call_args(fn, s):
+    """Positional arguments of one call from the running state `s` of a call history."""
+    return {
+        'svp': [s['db'] + 273.15], 'dlnpws': [s['db']], 'hr_db_rh': [s['db'], s['rh'], s['p']],
+        'enth': [s['db'], s['hr'], s['ref']], 'rh_db_hr': [s['db'], s['hr'], s['p']],
+        'rh_db_enth': [s['db'], s['enth'], s['p'], s['ref']], 'rh_db_dpt': [s['db'], s['dpt']],
+        'rh_db_wb': [s['db'], s['wb'], s['p']], 'hr_db_wb': [s['db'], s['wb'], s['p']],
+        'db_enth_hr': [s['enth'], s['hr'], s['ref']], 'db_rh_hr': [s['rh'], s['hr'], s['p']],
+        'db_hr_wb_rh': [s['wb'], s['rh'], s['p']], 'dpt_db_rh': [s['db'], s['rh']],
+        'wb_db_rh': [s['db'], s['rh'], s['p']], 'wb_db_hr': [s['db'], s['hr'], s['p']],
+        'dpt_db_hr': [s['db'], s['hr'], s['p']], 'dpt_db_enth': [s['db'], s['enth'], s['p'], s['ref']],
+        'dpt_db_wb': [s['db'], s['wb'], s['p']], 'dpt_fast': [s['db'], s['rh']], 'wb_fast': [s['db'], s['rh'], s['p']],
+    }[fn]
+
+
+def _call_history(rng, n, ctx=None):
+    """A sequence of calls of psychrometrics.py in which consecutive calls share all but one component of the
+    state (a memo keyed on part of the arguments answers the second call wrongly), with repeated questions,
+    omitted optional arguments (defaults), int arguments, completely dry states and calls that fail inside
+    (negative rh: math.log raises and is swallowed) placed before ordinary ones."""
+    s = {'db': _db(rng), 'rh': _rh(rng), 'p': _p(rng), 'ref': 0.0}
+
+    def derive():
+        pw = magnus(s['db']) * max(s['rh'], 0.0) / 100.0
+        s['hr'] = 0.622 * pw / (s['p'] - pw)
+        s['enth'] = 1.006 * (s['db'] - s['ref']) + s['hr'] * (2501.0 + 1.86 * (s['db'] - s['ref']))
+        s['wb'] = s['db'] - rng.choice([0.0, 0.3, 2.0, rng.uniform(0, 8)]) * (1 - min(s['rh'], 100.0) / 100.0)
+        s['dpt'] = s['db'] - rng.choice([0.0, 0.2, rng.uniform(0, 20)])
+    derive()
+    out = []
+    names = sorted(_FN)
+    for i in range(n):
+        r = rng.random()
+        tag = 'plain'
+        if r < 0.30:
+            s[rng.choice(['db', 'rh', 'p', 'ref'])] = None
+            if s['db'] is None:
+                s['db'] = _db(rng)
+            if s['rh'] is None:
+                s['rh'] = _rh(rng)
+            if s['p'] is None:
+                s['p'] = _p(rng)
+            if s['ref'] is None:
+                s['ref'] = _ref(rng)
+            derive()
+            tag = 'one_component_changed'
+        elif r < 0.40:
+            s.update({'db': _db(rng), 'rh': _rh(rng), 'p': _p(rng)})
+            derive()
+            tag = 'new_state'
+        elif r < 0.47:
+            k = rng.choice(['hr', 'enth', 'wb', 'dpt'])
+            s[k] = s[k] + rng.choice([-0.5, 0.5]) * (0.001 if k == 'hr' else 1.0)
+            tag = 'one_component_changed'
+        fn = rng.choice(names)
+        args = _call_args(fn, s)
+        q = rng.random()
+        if q < 0.05:
+            # completely dry air through each route / exact zeros
+            z = dict(s, rh=0.0, hr=0.0, enth=(1.006 * s['db'] if s['ref'] == 0.0 else s['enth']))
+            if fn == 'db_rh_hr':
+                z = s
+            args = _call_args(fn, z)
+            tag = 'dry_air'
+        elif q < 0.09 and fn not in ('db_rh_hr', 'wb_fast'):
+            z = dict(s, rh=rng.choice([-5.0, -1e-9, -100.0]), hr=-1e-4)
+            args = _call_args(fn, z)
+            tag = 'fails_inside'
+        elif q < 0.13:
+            args = [float(round(a)) if abs(a) > 1 else a for a in args]
+            args = [int(a) if (abs(a) > 1 and rng.random() < 0.7) else a for a in args]
+            tag = 'int_arguments'
+        nargs, defaults = _FN[fn][1], _FN[fn][2]
+        if defaults and rng.random() < 0.12:
+            drop = rng.randrange(1, len(defaults) + 1)
+            args = args[:nargs - drop]
+            tag = 'defaults'
+        if fn == 'wb_fast' and not (-60 <= args[0] <= 80 and 0 <= args[1] <= 100 and
+                                    (len(args) < 3 or 5e4 <= args[2] <= 1.1e5)):
+            continue                      # the fast wet bulb has no iteration limit: in-range inputs only
+        if fn == 'svp' and args[0] == 0 or (fn in ('db_rh_hr',) and (args[0] <= 0 or args[1] < 1e-12)):
+            continue
+        out.append({'fn': fn, 'args': args})
+        if ctx is not None:
+            ctx.count('calls:' + tag)
+        if rng.random() < 0.1:
+            out.append({'fn': fn, 'args': list(args)})
+            if ctx is not None:
+                ctx.count('calls:repeated')
+    return out
+
+
+def _call_line(c):
+    fn, args = c['fn'], list(c['args'])
+    nargs, defaults = _FN[fn][1], _FN[fn][2]
+    missing = nargs - len(args)
+    if missing:
+        args = args + list(defaults[len(defaults) - missing:])
+    return fn + ' ' + ' '.join(_fbits(a) for a in args)
+
+
+def _call_raw(c):
+    from ladybug import psychrometrics as ps
+    f = getattr(ps, _FN[c['fn']][0])
+    return _impl_vals(lambda: f(*c['args']))
+
+
+def _compare_calls(ctx, tag, calls, raws):
+    outs = ctx.driver().run([_call_line(c) for c in calls])
+    for i, (c, o, iv) in enumerate(zip(calls, outs, raws)):
+        if iv == 'zero':
+            ctx.count('skipped_zero_division')
+            continue
+        mv = _model_vals(o)
+        tol = 1e-9 if c['fn'] in _SOLVERS else 1e-12
+        ctx.compared += 1
+        ctx.count('op:' + tag)
+        ctx.case((tag, _call_line(c), len(c['args'])), nontrivial=iv is not None)
+        ok = (mv is None and iv is None) or (
+            isinstance(mv, list) and isinstance(iv, list) and len(mv) == len(iv)
+            and all(_close(a, b, tol) for a, b in zip(mv, iv)))
+        if ok and isinstance(mv, list) and mv == iv:
+            ctx.count('bit_exact')
+        if not ok:
+            ctx.disagree(tag, {'call': c, 'position': i, 'previous_calls': calls[max(0, i - 3):i]}, o, repr(iv))
+            return False
+    return True
+
+
+# -- fresh processes -------------------------------------------------------------------------------------------
+
+def _fresh_run(cases, mode):
+    """Evaluate `cases` in order in a fresh Python process (same module, same checkout).  mode 'raw': the raw
+    observations (call values / history records); mode 'oracle': check_case on each, stop at the first failure."""
+    env = dict(_os.environ)
+    code = ('import sys; sys.path.insert(0, %r); from harness import core; sys.path.insert(0, core.REPO); '
+            'from harness.props import c09; c09._worker_main()' % _ROOT)
+    p = _subprocess.run([_sys.executable, '-c', code], input=_json.dumps({'mode': mode, 'cases': cases}).encode(),
+                        stdout=_subprocess.PIPE, stderr=_subprocess.PIPE, env=env, timeout=600)
+    if p.returncode != 0:
+        raise RuntimeError('fresh process failed: ' + p.stderr.decode('utf-8', 'replace')[-800:])
+    return _json.loads(p.stdout.decode())
+
+
+def _enc(res):
+    """Outcome -> JSON (floats as bit patterns)."""
+    if isinstance(res, list):
+        return ['vals'] + [_fbits(v) for v in res]
+    if isinstance(res, tuple):
+        return [res[0]] + ([_fbits(v) for v in res[1]] if res[0] == 'vals' else list(res[1:]))
+    return res
+
+
+def _dec(x):
+    if isinstance(x, list) and x and x[0] == 'vals':
+        return ('vals', [_fromb(t) for t in x[1:]])
+    if isinstance(x, list):
+        return tuple(x)
+    return x
+
+
+def _worker_main():
+    job = _json.loads(_sys.stdin.read())
+    out = []
+    for op, inp in job['cases']:
+        if job['mode'] == 'raw':
+            if op == 'call':
+                r = _call_raw(inp)
+                out.append(_enc(r) if isinstance(r, list) else r)
+            elif op == 'dd_history':
+                try:
+                    out.append([_enc(rec['res']) for rec in _dd_run(inp)])
+                except Exception as e:
+                    out.append('harness:' + type(e).__name__ + ':' + str(e)[:200])
+            elif op == 'chart_history':
+                try:
+                    out.append([_enc(res) for _, _, res in _chart_run(inp)[1]])
+                except Exception as e:
+                    out.append('harness:' + type(e).__name__ + ':' + str(e)[:200])
+            else:
+                out.append(None)
+        else:
+            del _SUB[:]
+            try:
+                res = check_case(op, inp)
+            except Exception as e:
+                res = {'required': 'oracle evaluates', 'observed': 'exception %s: %s' % (type(e).__name__, e),
+                       'sig': {'exception': type(e).__name__}}
+            out.append(res)
+            if res:
+                break
+    _sys.stdout.write(_json.dumps(out, default=str))
+
+
+def _check_order(inp):
+    """The listed oracle cases, evaluated in this order in ONE fresh process, all hold (a module- or class-level
+    slot filled by an earlier case must not change a later answer)."""
+    res = _fresh_run(inp['order'], 'oracle')
+    _sub('process_order', not (res and res[-1]))
+    if res and res[-1]:
+        k = len(res) - 1
+        f = res[-1]
+        alone = _fresh_run([inp['order'][k]], 'oracle')
+        return _fail('case %d (%s) of the order holds after the %d cases before it: %s'
+                     % (k, inp['order'][k][0], k, f.get('required')), f.get('observed'),
+                     clause='process_order', inner=inp['order'][k][0], fails_alone=bool(alone and alone[-1]),
+                     inner_clause=str((f.get('sig') or {}).get('clause')))
+    return None
+
+
+def _check_routes(inp):
+    """One state of moist air reached through each metric: the dew point and the wet bulb computed from the humidity
+    ratio, the enthalpy and the wet bulb agree with those computed from the relative humidity (solver tolerance),
+    and air without water vapour has the documented dew point -273.15 C through every route."""
+    from ladybug import psychrometrics as ps
+    db, rh, p, ref = inp['db'], inp['rh'], inp['p'], inp.get('ref', 0.0)
+    side = 'ice' if db <= 0 else 'water'
+    if rh == 0:
+        for route, f in (('hr', lambda: ps.dew_point_from_db_hr(db, 0.0, p)),
+                         ('hr_default_pressure', lambda: ps.dew_point_from_db_hr(db, 0)),
+                         ('enth', lambda: ps.dew_point_from_db_enth(db, inp['dry_enth'], p, ref)),
+                         ('wb_hr', lambda: ps.wet_bulb_from_db_hr(db, 0.0, p))):
+            if route == 'enth' and inp.get('dry_enth') is None:
+                continue
+            try:
+                got = f()
+            except Exception as e:
+                got = 'raises ' + type(e).__name__
+            if route == 'wb_hr':
+                want = ps.wet_bulb_from_db_rh(db, 0.0, p)
+                ok = got == want
+            else:
+                want, ok = -273.15, got == -273.15
+            if not _sub('routes_dry_air', ok):
+                return _fail('dry air (no water vapour) through the %s route gives %r as through relative humidity 0'
+                             % (route, want), got, clause='routes_dry', route=route)
+        return None
+    hr = ps.humid_ratio_from_db_rh(db, rh, p)
+    dpt = ps.dew_point_from_db_rh(db, rh)
+    wb = ps.wet_bulb_from_db_rh(db, rh, p)
+    en = ps.enthalpy_from_db_hr(db, hr, ref)
+    lo = ps.rel_humid_from_db_dpt(db, dpt - 2 * SOLVER_TOL)
+    hi = ps.rel_humid_from_db_dpt(db, min(dpt + 2 * SOLVER_TOL, db))
+
+    def dew_ok(d):
+        # a dew point from another route: <= dry bulb and within the solver tolerance of the rh route
+        return d <= db and abs(d - dpt) <= 2 * SOLVER_TOL and lo <= ps.rel_humid_from_db_dpt(db, d) <= hi * (1 + 1e-12)
+    routes = [('hr', lambda: ps.dew_point_from_db_hr(db, hr, p), dew_ok)]
+    if en > 0:
+        routes.append(('enth', lambda: ps.dew_point_from_db_enth(db, en, p, ref), dew_ok))
+    # (where the two wet bulbs lie on different sides of 0 C the step of humid_ratio_from_db_wb at 0 C separates
+    # them: open finding C09-wet-bulb-drops-at-0C, asserted by the `rises` cases, not here)
+    wb_back = ps.wet_bulb_from_db_rh(db, ps.rel_humid_from_db_hr(db, hr, p), p)
+    routes.append(('wb_hr', lambda: ps.wet_bulb_from_db_hr(db, hr, p),
+                   lambda w: w == wb_back and dpt - 2 * SOLVER_TOL <= w <= db and
+                   (abs(w - wb) <= 2 * SOLVER_TOL or (w >= 0) != (wb >= 0))))
+    # the wet-bulb route goes through rel_humid_from_db_wb: consistent with THAT function's relative humidity
+    wb_in = inp.get('wb_in')
+    if wb_in is not None:
+        rh_wb = ps.rel_humid_from_db_wb(db, wb_in, p)
+        if rh_wb <= 0 or rh_wb >= 0.01:
+            want = ps.dew_point_from_db_rh(db, rh_wb)
+            routes.append(('wb', lambda: ps.dew_point_from_db_wb(db, wb_in, p), lambda d: d == want))
+    for route, f, ok_fn in routes:
+        try:
+            got = f()
+            ok = ok_fn(got)
+        except Exception as e:
+            got, ok = 'raises ' + type(e).__name__, False
+        if not _sub('routes_agree', ok):
+            return _fail('the %s route describes the same state as relative humidity %r at %r C: dew point %r, '
+                         'wet bulb %r (solver tolerance 0.1 C each)' % (route, rh, db, dpt, wb), got,
+                         clause='routes', route=route, side=side, straddles=(db > 0) != (dpt > 0))
+    return None
+
+
+def _check_calls(inp):
+    """A call history evaluated in this process: each answer equals the answer to the same question asked alone
+    in a fresh process (pure functions: no answer depends on what was asked before)."""
+    calls = inp['calls']
+    here = [_call_raw(c) for c in calls]
+    k = inp.get('focus')
+    idx = range(len(calls)) if k is None else [k]
+    # the independent answers: one fresh process, reversed order (so that any memo is filled differently)
+    order = list(reversed(range(len(calls))))
+    there = _fresh_run([['call', calls[j]] for j in order], 'raw')
+    alone = {j: (_dec(r)[1] if isinstance(r, list) else r) for j, r in zip(order, there)}
+    for j in idx:
+        a, b = here[j], alone[j]
+        ok = a == b or (isinstance(a, list) and isinstance(b, list) and len(a) == len(b)
+                        and all(x == y for x, y in zip(a, b)))
+        if not _sub('calls_order_independent', ok):
+            return _fail('call %d %s%r answers the same in another order of the same calls: %r'
+                         % (j, calls[j]['fn'], tuple(calls[j]['args']), b), a, clause='calls_order',
+                         fn=calls[j]['fn'])
+    return None
+
+
+_R3_OPS = {'dd_history': _check_dd_history, 'dd_entry': _check_dd_entry, 'dd_ashrae': _check_dd_ashrae,
+           'chart_history': _check_chart_history, 'order': _check_order, 'routes': _check_routes,
+           'calls': _check_calls}
+
+
+R3_FIXED = [
+    # read -> set pressure -> read on one object, all humidity types (a memo of the day dew point must follow)
+    ('dd_history', {'entry': 'ctor', 'twin': None,
+                    'init': {'type': 'Wetbulb', 'value': 23.0, 'p': 101325.0, 'db_max': 32.0, 'db_range': 11.0},
+                    'ops': [[0, 'hdew', None], [0, 'p', 84000.0], [0, 'hdew', None], [0, 'hrh', None],
+                            [0, 'value', 20.0], [0, 'hrh', None], [0, 'db_max', 35.0], [0, 'dew', None],
+                            [0, 'db_range', -1.0], [0, 'hdew', None], [0, 'type', 'Dewpoint'], [0, 'hdpv', None]]}),
+    ('dd_history', {'entry': 'idf', 'twin': {'p': 70000.0},
+                    'init': {'type': 'Enthalpy', 'value': 65000.0, 'p': 101325.0, 'db_max': 30.0, 'db_range': 9.0},
+                    'ops': [[0, 'dew', None], [1, 'dew', None], [0, 'hrh', None], [1, 'hrh', None],
+                            [0, 'idf', None], [0, 'reidf', None], [1, 'redict', None], [0, 'dict', None]]}),
+    ('dd_history', {'entry': 'dict', 'twin': None,
+                    'init': {'type': 'Dewpoint', 'value': 0, 'p': 101325, 'db_max': 8.0, 'db_range': 0},
+                    'ops': [[0, 'hrh', None], [0, 'type', 'bad:none'], [0, 'hrh', None], [0, 'type', 'Wetbulb'],
+                            [0, 'hrh', None], [0, 'bad_hc', 'bad:str'], [0, 'dup', None]]}),
+    ('dd_entry', {'state': {'type': 'Enthalpy', 'value': 65000.0, 'p': 101325.0, 'db_max': 30.0, 'db_range': 9.0}}),
+    ('dd_entry', {'state': {'type': 'HumidityRatio', 'value': 0.012, 'p': 90000.0, 'db_max': 28.0, 'db_range': 0.0}}),
+    ('dd_entry', {'state': {'type': 'Wetbulb', 'value': 2.0, 'p': 101325.0, 'db_max': 8.0, 'db_range': 6.0}}),
+    ('dd_entry', {'state': {'type': 'Dewpoint', 'value': 0.0, 'p': 101325.0, 'db_max': 5.0, 'db_range': 4.0}}),
+    ('dd_ashrae', {'db': 33.1, 'wb': 24.2, 'dbr': 10.4, 'p': None}),
+    ('dd_ashrae', {'db': -12.0, 'wb': -12.0, 'dbr': 0.0, 'p': 84000.0}),
+    ('routes', {'db': 20.0, 'rh': 0.0, 'p': 101325.0, 'dry_enth': 20.12}),
+    ('routes', {'db': 0.0, 'rh': 0.0, 'p': 101325.0, 'dry_enth': 0.0}),
+    ('routes', {'db': -10.0, 'rh': 0.0, 'p': 70000.0, 'dry_enth': None}),
+    ('routes', {'db': 10.0, 'rh': 20.0, 'p': 101325.0, 'wb_in': 3.5}),        # dry bulb above, dew point below 0 C
+    ('routes', {'db': 2.0, 'rh': 80.0, 'p': 101325.0, 'wb_in': 1.0}),
+    ('routes', {'db': 25.0, 'rh': 5.0, 'p': 101325.0, 'wb_in': 9.0, 'ref': -17.78}),
+    ('routes', {'db': -5.0, 'rh': 60.0, 'p': 60000.0, 'wb_in': -6.5}),
+    ('routes', {'db': 30.0, 'rh': 100.0, 'p': 105000.0, 'wb_in': 30.0}),
+]
+
+
+def _routes_case(rng, ctx=None):
+    db, rh, p = _db(rng), _rh_met(rng), _p(rng)
+    r = rng.random()
+    stratum = 'any'
+    if r < 0.25:
+        # dry bulb above 0 C with a dew (frost) point below 0 C: both branches in one solve
+        db = rng.choice([rng.uniform(0.0, 25.0), rng.uniform(0.0, 3.0), 1e-9, 10.0])
+        frost = rng.uniform(-25.0, -0.01)
+        rh = max(0.01, min(100.0, 100.0 * magnus(frost) / magnus(db)))
+        stratum = 'straddle'
+    elif r < 0.35:
+        rh = 0.0
+        stratum = 'dry_air'
+    inp = {'db': db, 'rh': rh, 'p': p, 'ref': rng.choice([0.0, 0.0, -17.78])}
+    if rh == 0.0:
+        e = 1.006 * (db - inp['ref'])
+        # only where plain arithmetic shows that the enthalpy of dry air converts back to a humidity ratio of exactly 0
+        inp['dry_enth'] = e if (e >= 0 and e - 1.006 * (db - inp['ref']) == 0) else None
+    else:
+        # a wet bulb consistent with the state (psychrometer relation on the Magnus curve), for the wet-bulb route
+        pw = magnus(db) * rh / 100.0
+        a, b = db - 40.0, db
+        for _ in range(40):
+            m = (a + b) / 2.0
+            if magnus(m) - p * 6.6e-4 * (db - m) > pw:
+                b = m
+            else:
+                a = m
+        inp['wb_in'] = b
+    if ctx is not None:
+        ctx.count('routes:' + stratum)
+    return inp
+
+
+def _order_slice(rng, n_state, n_hist):
+    """A slice of the oracle stream (no case that matches an open finding) for the process-order runs."""
+    cases = []
+    for _ in range(n_state):
+        db, rh, p = _db(rng), max(_rh_met(rng), 0.01), _p(rng)
+        cases.append(['state', {'db': db, 'rh': rh, 'p': p, 'ref': _ref(rng)}])
+        # the same question with ONE component changed (a memo keyed on part of the arguments answers it wrongly)
+        twin = {'db': db, 'rh': rh, 'p': p, 'ref': 0.0}
+        k = rng.choice(['p', 'rh', 'db'])
+        twin[k] = {'p': _p(rng), 'rh': max(_rh_met(rng), 0.01), 'db': _db(rng)}[k]
+        cases.append(['state', twin])
+        cases.append(['routes', _routes_case(rng)])
+        t1 = _db(rng)
+        cases.append(['svp', {'t1': t1, 't2': t1 + rng.choice([1e-6, 0.1, 3.0])}])
+        cases.append(['derivative', {'db': _db(rng)}])
+    for _ in range(n_hist):
+        cases.append(['dd_history', _dd_history_case(rng)])
+        cases.append(['chart_history', _chart_history_case(rng)])
+        st = _dd_history_case(rng)['init']
+        cases.append(['dd_entry', {'state': st}])
+    cases.append(['continuity', {}])
+    return cases
+
+
+def _rarity(case):
+    """Sort key that puts the rare classes first (failing calls, dry air, below freezing, IP charts, refusals)."""
+    op, inp = case
+    if op == 'routes':
+        return 0 if inp['rh'] == 0 else (1 if inp['db'] > 0 and inp['rh'] < 30 else 5)
+    if op == 'dd_history':
+        return 1 if any(_dd_apply({}, n, a)[1] == 'refused' for _, n, a in inp['ops'] if n in DD_FIELDS) else 4
+    if op == 'chart_history':
+        return 1 if inp.get('refused_first') else (2 if inp['par'][0] else 4)
+    if op == 'state':
+        return 2 if inp['db'] <= 0 else 6
+    if op in ('svp', 'derivative'):
+        return 3 if inp.get('t1', inp.get('db', 1.0)) <= 0 else 6
+    return 5
+
+
+def _oracle_cases_r3(ctx, big):
+    rng = ctx.rng
+    for c in R3_FIXED:
+        yield c
+    n = 1500 if big else 120
+    for _ in range(n * 4):
+        yield 'routes', _routes_case(rng, ctx)
+    for _ in range(n * 3 // 2):
+        yield 'dd_history', _dd_history_case(rng, ctx)
+    for _ in range(n // 3):
+        st = _dd_history_case(rng)['init']
+        ctx.count('ddentry:' + st['type'])
+        yield 'dd_entry', {'state': st}
+    for _ in range(n // 6):
+        db = rng.choice([rng.uniform(25, 42), rng.uniform(-25, 5)])
+        yield 'dd_ashrae', {'db': db, 'wb': db - rng.uniform(0.5, 12.0), 'dbr': rng.choice([0.0, rng.uniform(4, 14)]),
+                            'p': rng.choice([None, None, _p(rng)])}
+    for _ in range(n * 3 // 4):
+        yield 'chart_history', _chart_history_case(rng, ctx)
+    # one process, several call histories; and the same oracle stream in fresh processes in different orders
+    for _ in range(3 if big else 1):
+        yield 'calls', {'calls': _call_history(rng, 400 if big else 150, ctx)}
+    base = _order_slice(rng, 60 if big else 12, 25 if big else 6)
+    orders = [sorted(base, key=_rarity), list(reversed(sorted(base, key=_rarity)))]
+    for _ in range(2 if big else 1):
+        sh = list(base)
+        rng.shuffle(sh)
+        orders.append(sh)
+    for o in orders:
+        ctx.count('order:processes')
+        yield 'order', {'order': o}
+
+
+def _corr_round3(ctx):
+    """History correspondence: real objects / real call sequences step by step against the Lean model (the
+    design-day state machine `ddhist`, the pure functions, the chart coordinates), in this process and in fresh
+    processes with other orders."""
+    rng = ctx.rng
+    # (1) design-day histories against the state machine
+    hists = [_dd_history_case(rng, ctx) for _ in range(ctx.n(150, 2500))]
+    hists += [c[1] for c in R3_FIXED if c[0] == 'dd_history']
+    for inp in hists:
+        try:
+            recs = _dd_run(inp)
+        except Exception as e:
+            ctx.disagree('dd_history', {'history': inp}, 'history runs', 'harness: %s: %s' % (type(e).__name__, e))
+            break
+        _dd_compare_model(ctx, 'dd_history', inp, recs)
+        if len(ctx.disagreements) > 3:
+            break
+    # (2) call histories of psychrometrics.py in this process
+    calls = _call_history(rng, ctx.n(1500, 30000), ctx)
+    _compare_calls(ctx, 'calls', calls, [_call_raw(c) for c in calls])
+    # (3) chart histories: plot_point / data_points between other reads, against the model coordinates
+    charts = [_chart_history_case(rng, ctx) for _ in range(ctx.n(40, 500))]
+    for inp in charts:
+        try:
+            first, recs = _chart_run(inp)
+        except Exception as e:
+            ctx.disagree('chart_history', {'history': inp}, 'history runs', 'harness: %s: %s' % (type(e).__name__, e))
+            break
+        _chart_compare_model(ctx, 'chart_history', inp, [r for _, _, r in recs])
+    # (4) the same material in fresh processes, rare classes first / reversed / shuffled
+    n_proc = 3 if not ctx.quick else 2
+    sl_calls = calls[:ctx.n(400, 3000)]
+    sl_h = hists[:ctx.n(40, 300)]
+    sl_c = charts[:ctx.n(15, 100)]
+    for k in range(n_proc):
+        cases = ([['call', c] for c in sl_calls] + [['dd_history', h] for h in sl_h]
+                 + [['chart_history', c] for c in sl_c])
+        if k == 0:
+            def key(c):
+                if c[0] == 'call':
+                    a = c[1]['args']
+                    return 0 if any(x <= 0 for x in a) else 3
+                return _rarity(c)
+            cases.sort(key=key)
+        elif k == 1:
+            cases.reverse()
+        else:
+            rng.shuffle(cases)
+        ctx.count('fresh_processes')
+        try:
+            outs = _fresh_run(cases, 'raw')
+        except Exception as e:
+            ctx.disagree('fresh_process', {'order_kind': k}, 'fresh process evaluates the cases',
+                         '%s: %s' % (type(e).__name__, str(e)[:300]))
+            continue
+        cc = [(c[1], _dec(o)[1] if isinstance(o, list) else o) for c, o in zip(cases, outs) if c[0] == 'call']
+        _compare_calls(ctx, 'calls_fresh_process', [c for c, _ in cc], [r for _, r in cc])
+        for c, o in zip(cases, outs):
+            if c[0] == 'call':
+                continue
+            if isinstance(o, str):
+                ctx.disagree(c[0] + '_fresh_process', {'history': c[1]}, 'history runs', o)
+                continue
+            if c[0] == 'dd_history':
+                recs = _dd_run_skeleton(c[1])
+                for rec, r in zip(recs, o):
+                    rec['res'] = _dec(r)
+                _dd_compare_model(ctx, 'dd_history_fresh_process', c[1], recs)
+            else:
+                _chart_compare_model(ctx, 'chart_history_fresh_process', c[1], [_dec(r) for r in o])
+        if len(ctx.disagreements) > 3:
+            break
+
+
+def _dd_run_skeleton(inp):
+    """The records of a history without touching the code (names, arguments, tracked states)."""
+    sts = [dict(inp['init'])]
+    if inp.get('twin'):
+        t = dict(inp['init'])
+        t.update(inp['twin'])
+        sts.append(t)
+    out = []
+    for k, name, arg in inp['ops']:
+        before = sts[k]
+        sts[k], verdict = _dd_apply(sts[k], name, arg)
+        out.append({'obj': k, 'name': name, 'arg': arg, 'res': None, 'verdict': verdict, 'before': before,
+                    'state': sts[k]})
+    return out
+
+
+def _chart_compare_model(ctx, tag, inp, results):
+    par = tuple(inp['par'])
+    use_ip, bx, by, xd, yd, tmin, tmax, p = par
+    tv, rv = _chart_inputs(inp)
+    head = [bx, by, xd, yd, float(tmin), p]
+    lines, want = [], []
+    for (name, arg), res in zip(inp['reads'], results):
+        if name == 'plot':
+            lines.append(['plot %s %s' % ('1' if use_ip else '0', ' '.join(_fbits(x) for x in head + [arg[0], arg[1]]))])
+            want.append(res)
+        elif name == 'data_points':
+            lines.append(['datapt %s %s' % ('1' if use_ip else '0', ' '.join(_fbits(x) for x in head + [t, r]))
+                          for t, r in zip(tv, rv)])
+            want.append(res)
+    flat = [ln for grp in lines for ln in grp]
+    if not flat:
+        return
+    outs = ctx.driver().run(flat)
+    pos = 0
+    for grp, res in zip(lines, want):
+        o = outs[pos:pos + len(grp)]
+        pos += len(grp)
+        ctx.compared += 1
+        ctx.count('op:' + tag)
+        ctx.case((tag, grp[0], len(grp)), nontrivial=res[0] == 'vals')
+        mv = []
+        for x in o:
+            v = _model_vals(x)
+            if not isinstance(v, list):
+                mv = None
+                break
+            mv.extend(v)
+        if res[0] == 'vals':
+            ok = mv is not None and len(mv) == len(res[1]) and all(_close(a, b, 1e-12) for a, b in zip(mv, res[1]))
+        else:
+            ok = mv is None
+        if not ok:
+            ctx.disagree(tag, {'history': inp, 'read': grp[0][:80]}, repr(mv)[:300], repr(res)[:300])
+            return
